@@ -173,7 +173,7 @@ def gap_rewrite(text, ch):
     for i, t in enumerate(toks):
         if t.kind == 'NEWLINE' and g.pieces[i][0] in '\r\n' and ch.want('comment-eol'):
             g.gaps[i] += [' # note; x = 1', '#', ' # ) ] }', ' # was 2;', '#;', ' # "', " # it's", ' # \\', ' # x = (', ' # %a', ' #\t', ' # ;;', ' # a,',
-                          ' # => ='][ch.n(14)]
+                          ' # => =', ' # was\u2028- c', ' # a\x0cb = 1', ' # t\x85 * 2', ' # old:\rx = 2', ' #\x0b)', ' # \u2029', ' # \x1c\x1d\x1e'][ch.n(21)]
             g.locked.add(i)
     if ch.want('comment-eof'):
         g.gaps[-1] += ' # trailing'
